@@ -145,7 +145,8 @@ def lean_build(targets=None):
 
 
 # driver executables: one per model group, so that a check does not depend on unrelated models
-MODE_GROUP = {"part": "core", "barrier": "core", "deliver": "core", "atomic": "core", "bytes": "core", "flush": "core"}
+MODE_GROUP = {"part": "core", "barrier": "core", "deliver": "core", "atomic": "core", "bytes": "core", "flush": "core",
+              "lines": "lines"}
 
 
 def model_exe_name(mode):
